@@ -5,6 +5,7 @@ import (
 	"go/constant"
 	"go/token"
 	"go/types"
+	"strings"
 
 	"dtnverif/core"
 
@@ -237,6 +238,127 @@ func C07(p *core.Program, r *core.Report) {
 		}
 		r.Check(ok, "hand-over/"+fname(lfn)+"/report-after-deliver", "the delivery is reported only if Deliver()==nil", p.Pos(c.Pos()), "", "status report reachable when Deliver failed; "+condStrings(conds))
 	}
+
+	checkAgentsAlwaysDrain(p, r)
+}
+
+// checkAgentsAlwaysDrain: the MuxAgent hands a message to a child while it
+// holds its lock (so that the child cannot be unregistered, i.e. its channel
+// closed, during the send). That is deadlock-free only if every agent keeps
+// reading its receiver channel until the channel is closed or a shutdown
+// message arrives: (i) the receiver loop never blocks on the agent's own
+// sender channel (the consumer of that channel may be waiting for the mux
+// lock), (ii) an exit from the loop for another reason (write error) is
+// followed by a deferred drain of the channel.
+func checkAgentsAlwaysDrain(p *core.Program, r *core.Report) {
+	pkg := p.Pkg(agentPkg)
+	n := 0
+	for _, fn := range p.RepoFuncs() {
+		if fn.Pkg != pkg || fn.Signature.Recv() == nil {
+			continue
+		}
+		recvT := derefNamed(fn.Signature.Recv().Type())
+		isOwnField := func(v ssa.Value, name string) bool {
+			u, ok := v.(*ssa.UnOp)
+			if !ok || u.Op != token.MUL {
+				return false
+			}
+			owner, field, ok := core.FieldOwner(u.X)
+			return ok && field == name && types.Identical(owner, recvT)
+		}
+		var recv *ssa.UnOp
+		core.EachInstr(fn, func(in ssa.Instruction) {
+			if u, ok := in.(*ssa.UnOp); ok && u.Op == token.ARROW && u.CommaOk && isOwnField(u.X, "receiver") {
+				recv = u
+			}
+		})
+		if recv == nil {
+			continue
+		}
+		l := core.InnermostLoop(core.Loops(fn), recv.Block())
+		if l == nil {
+			continue
+		}
+		n++
+		// (i) no blocking send on the own sender channel from inside the loop (also one call deep)
+		var bad []string
+		scan := func(f *ssa.Function, inLoop func(*ssa.BasicBlock) bool) {
+			core.EachInstr(f, func(in ssa.Instruction) {
+				if snd, ok := in.(*ssa.Send); ok && inLoop(in.Block()) {
+					if u, isLd := snd.Chan.(*ssa.UnOp); isLd {
+						if owner, field, ok := core.FieldOwner(u.X); ok && field == "sender" && types.Identical(owner, recvT) {
+							bad = append(bad, p.Pos(snd.Pos()))
+						}
+					}
+				}
+			})
+		}
+		scan(fn, func(b *ssa.BasicBlock) bool { return l.Blocks[b] })
+		core.EachInstr(fn, func(in ssa.Instruction) {
+			c, ok := in.(*ssa.Call)
+			if !ok || !l.Blocks[in.Block()] {
+				return
+			}
+			if cal := c.Common().StaticCallee(); cal != nil && cal.Pkg == pkg && cal.Blocks != nil {
+				scan(cal, func(*ssa.BasicBlock) bool { return true })
+			}
+		})
+		r.Check(len(bad) == 0, "agent-drains/"+fname(fn)+"/no-upward-send-in-receiver-loop", "an agent's receiver loop does not send blockingly on the agent's own sender channel (it answers from a goroutine of its own): the consumer of that channel may be blocked behind the MuxAgent's lock, which is held until this agent takes the next message", p.Pos(recv.Pos()), "", "blocking send on the own sender channel inside the receiver loop at "+strings.Join(bad, ", "))
+		// (ii) exits other than channel-closed / shutdown need a deferred drain
+		hasDrain := false
+		core.EachInstr(fn, func(in ssa.Instruction) {
+			d, ok := in.(*ssa.Defer)
+			if !ok {
+				return
+			}
+			if mc, ok := d.Call.Value.(*ssa.MakeClosure); ok {
+				cl := mc.Fn.(*ssa.Function)
+				core.EachInstr(cl, func(i2 ssa.Instruction) {
+					if u, ok := i2.(*ssa.UnOp); ok && u.Op == token.ARROW {
+						if ld, ok := u.X.(*ssa.UnOp); ok {
+							if fa, ok := ld.X.(*ssa.FieldAddr); ok {
+								if st := derefStructOf(fa.X.Type()); st != nil && st.Field(fa.Field).Name() == "receiver" {
+									hasDrain = true
+								}
+							}
+						}
+					}
+				})
+			}
+		})
+		var badExits []string
+		for _, b := range l.EarlyExits() {
+			for _, sc := range b.Succs {
+				if l.Blocks[sc] {
+					continue
+				}
+				shutdown := false
+				for _, cd := range core.DominatingConds(sc) {
+					if ex, ok := cd.V.(*ssa.Extract); ok && cd.True && ex.Index == 1 {
+						if ta, ok := ex.Tuple.(*ssa.TypeAssert); ok {
+							if nt, ok := ta.AssertedType.(*types.Named); ok && nt.Obj().Name() == "ShutdownMessage" {
+								shutdown = true
+							}
+						}
+					}
+				}
+				if !shutdown && !hasDrain {
+					badExits = append(badExits, p.Pos(b.Instrs[len(b.Instrs)-1].Pos()))
+				}
+			}
+		}
+		r.Check(len(badExits) == 0, "agent-drains/"+fname(fn)+"/reads-until-closed", "an agent stops reading its receiver channel only when the channel is closed or on a shutdown message; an exit for another reason (e.g. a write error) is followed by a deferred drain of the channel", p.Pos(recv.Pos()), "", "the receiver loop is left at "+strings.Join(badExits, ", ")+" without a shutdown message and without a deferred drain: the MuxAgent then blocks on this agent while holding its lock and can never unregister it")
+	}
+	r.Count("agent receiver loops", n)
+	r.Min("agent receiver loops", 4)
+}
+
+func derefStructOf(t types.Type) *types.Struct {
+	if pt, ok := t.Underlying().(*types.Pointer); ok {
+		t = pt.Elem()
+	}
+	st, _ := t.Underlying().(*types.Struct)
+	return st
 }
 
 // isRecipientsOf: v is the result of msg.Recipients() for the same msg value
